@@ -69,14 +69,38 @@ theorem cond_handleChallengePhase2 : Cond.handleChallengePhase2 =
      "!h.secretKeyMgr.VerifyResponse(config.SecretKeyEncrypted, challenge, req.ChallengeResponse)",
      "h.bruteForceProtector != nil", "h.bruteForceProtector != nil"] := by decide
 
-/-- the guard of the registry update and of the eviction in `SessionManager.handleHandshake` -/
-theorem cond_handleHandshake_guards :
-    "isControlConnection && clientConn.IsAuthenticated() && clientConn.GetClientID() > 0" ∈ Cond.handleHandshake ∧
-    "oldConn != nil && oldConn.GetConnID() != clientConn.GetConnID()" ∈ Cond.handleHandshake ∧
-    "isControlConnection := req.ConnectionType != \"tunnel\"" ∈ Cond.handleHandshake ∧
-    "err != nil" ∈ Cond.handleHandshake ∧
-    "err := s.sendHandshakeResponse(clientConn, resp); err != nil" ∈ Cond.handleHandshake ∧
-    Cond.handleHandshake.length = 28 := by decide
+/-- every decision expression of `SessionManager.handleHandshake`, as written in the source: in particular the
+guard `isControlConnection && clientConn.IsAuthenticated() && clientConn.GetClientID() > 0` of the registry update,
+the eviction condition, and the two early returns (handler error, response write error) -/
+theorem cond_handleHandshake : Cond.handleHandshake =
+    ["s.authHandler == nil",
+     "len(connPacket.Packet.Payload) > 0",
+     "err := json.Unmarshal(connPacket.Packet.Payload, req); err != nil",
+     "isControlConnection := req.ConnectionType != \"tunnel\"",
+     "req.ConnectionType == \"\"",
+     "isControlConnection",
+     "existingConn != nil",
+     "conn == nil",
+     "enforcedProtocol == \"\"",
+     "conn.RawConn != nil",
+     "existingConn != nil",
+     "conn == nil",
+     "enforcedProtocol == \"\"",
+     "conn.RawConn != nil",
+     "err != nil",
+     "err := s.sendHandshakeResponse(clientConn, resp); err != nil",
+     "isControlConnection && clientConn.IsAuthenticated() && clientConn.GetClientID() > 0",
+     "oldConn != nil && oldConn.GetConnID() != clientConn.GetConnID()",
+     "s.connStateStore != nil",
+     "err := s.connStateStore.UnregisterConnection(s.Ctx(), oldConn.GetConnID()); err != nil",
+     "concreteConn, ok := clientConn.(*ControlConnection); ok",
+     "err := s.clientRegistry.UpdateAuth(concreteConn.ConnID, clientConn.GetClientID(), concreteConn.UserID); err != nil",
+     "s.connStateStore != nil",
+     "conn != nil && conn.Protocol != \"\"",
+     "err := s.connStateStore.RegisterConnection(s.Ctx(), stateInfo); err != nil",
+     "conn != nil && conn.Stream != nil",
+     "handshakeHandler, ok := reader.(interface{ OnHandshakeComplete(clientID int64) }); ok",
+     "isControlConnection && clientConn.IsAuthenticated() && clientConn.GetClientID() > 0"] := by decide
 
 theorem cond_registry : Cond.UpdateAuth = ["!exists"] ∧
     Cond.removeConnectionLocked = ["conn == nil", "conn.Stream != nil", "conn.Authenticated && conn.ClientID > 0",
